@@ -121,6 +121,11 @@ def zoo_specs(tier, prop):
                         continue
                     specs.append(dict(cls='Union', member=cls, unit=unit, family=fam, d=d, n=n,
                                       enlarge=e, depth=3 if quick else 5, npm=d + 2))
+    # unions with many members (two-digit member indices)
+    for cls in ('Ellipsoid', 'UnitCubeEllipsoidMixture'):
+        for d, n in (((2, 160),) if quick else ((2, 160), (3, 220))):
+            specs.append(dict(cls='UnionMany', member=cls, unit=True, family='banana', d=d, n=n,
+                              enlarge=1.1, npm=d + 2, members=12))
     # neural / nautilus bounds
     for nn in (0, 1):
         for d in ((2,) if quick else (2, 3, 5)):
@@ -183,6 +188,22 @@ def build_states(sp):
         C = Ellipsoid if cls == 'Ellipsoid' else UnitCubeEllipsoidMixture
         b = C.compute(pts, enlarge_per_dim=sp['enlarge'], rng=rng)
         yield 'fresh', b, dict(points=pts, unit=False)
+        return
+    if cls == 'UnionMany':
+        pts = B.pointset(sp['family'], sp['d'], sp['n'], seed)
+        C = Ellipsoid if sp['member'] == 'Ellipsoid' else UnitCubeEllipsoidMixture
+        u = Union.compute(pts, enlarge_per_dim=sp['enlarge'], n_points_min=sp['npm'],
+                          unit=sp['unit'], bound_class=C, rng=rng)
+        while len(u.bounds) < sp['members'] and u.split():
+            pass
+        if len(u.bounds) < 11:
+            raise core.Inconclusive('could not build a union with >= 11 members ({})'.format(
+                len(u.bounds)))
+        info = dict(points=np.vstack(u.points_bounds), unit=sp['unit'])
+        yield 'split-to-{}-members'.format(len(u.bounds)), u, info
+        u2 = pickle.loads(pickle.dumps(u))
+        u2.sample(137)
+        yield 'many-members-partly-sampled', u2, info
         return
     if cls == 'NeuralBound':
         d = sp['d']
